@@ -53,7 +53,7 @@ fn table(c: Gc<ObjClass>) -> String {
                     if CORE_FNS.with(|c| c.borrow().contains(&key)) {
                         format!("{}/{}/core", crate::hex(f.name.as_str().as_bytes()), f.arity)
                     } else {
-                        let line = f.chunk.lines.first().copied().unwrap_or(0);
+                        let line = if f.chunk.code.is_empty() { 0 } else { f.chunk.lines[0] };
                         format!("{}/{}/{}", crate::hex(f.name.as_str().as_bytes()), f.arity, line)
                     }
                 }
